@@ -19,7 +19,7 @@ for p in props:
         "evidence_file": f"evidence/{pid}.json",
         "replay_cmd_template": f"./check {pid} --replay {{path}}",
         "engine": "pyvc",
-        "level_claimed": {"category": c["level"], "text": c.get("text", c.get("explanation", "")), "design_ref": c.get("design_ref", "DESIGN.md section 5, " + pid)},
+        "level_claimed": {"category": c["level"], "text": c.get("text", c.get("explanation", "")), "design_ref": c.get("design_ref", "DESIGN.md section 1 (table row) and section 10, " + pid)},
         "level_note": c.get("note", "; ".join(c.get("trusted_base", []))),
         "technique": c.get("technique", "contract-based deductive verification: VCs generated from the real source (ast), discharged by z3/cvc5"),
     })
